@@ -3216,9 +3216,13 @@ void Analyser::AnalyserImpl::analyseModel(const ModelPtr &model)
             break;
         default:
             // Swap the LHS and RHS of the equation if its unknown variable is
-            // on its RHS.
+            // on its RHS. Note that the unknown of an ODE is the rate of its
+            // state, so a state that is used on the RHS of its own ODE (e.g.
+            // dx/dt = x) is not the unknown.
 
-            if (internalEquation->variableOnRhs(internalEquation->mUnknownVariables.front())) {
+            if (internalEquation->variableOnRhs(internalEquation->mUnknownVariables.front())
+                && ((type != AnalyserEquation::Type::ODE)
+                    || (internalEquation->mAst->rightChild()->type() == AnalyserEquationAst::Type::DIFF))) {
                 internalEquation->mAst->swapLeftAndRightChildren();
             }
 
